@@ -84,6 +84,16 @@ func runSolver(ctx context.Context, sp solverSpec, file string, timeoutMs int, w
 	cmd.Stderr = &out
 	_ = cmd.Run()
 	s := out.String()
+	if strings.TrimSpace(s) == "" && cctx.Err() == nil {
+		// The solver process produced nothing at all (it could not be started, or was killed from outside): that says
+		// nothing about the query. Run it once more before recording an error.
+		out.Reset()
+		cmd = exec.CommandContext(cctx, args[0], args[1:]...)
+		cmd.Stdout = &out
+		cmd.Stderr = &out
+		_ = cmd.Run()
+		s = out.String()
+	}
 	first := strings.TrimSpace(strings.SplitN(s, "\n", 2)[0])
 	switch first {
 	case "unsat", "sat", "unknown":
@@ -113,7 +123,11 @@ func solve(vc *VC, o *Obligation, outDir string, timeoutMs int, seed int, all bo
 	if o.MustFail {
 		text = weaken(text)
 	}
-	fname := filepath.Join(outDir, sanitizeFile(o.Name)+".smt2")
+	stem := o.Stem
+	if stem == "" {
+		stem = sanitizeFile(o.Name)
+	}
+	fname := filepath.Join(outDir, stem+".smt2")
 	if err := os.WriteFile(fname, []byte(text), 0o644); err != nil {
 		res.Status = "error"
 		res.Detail = err.Error()
